@@ -1,6 +1,7 @@
 package props
 
 import (
+	"context"
 	"fmt"
 	"sort"
 	"strings"
@@ -184,10 +185,31 @@ func runC05(rc *RunCtx, faulty bool) *simkit.Violation {
 			return c.Client == cl && (c.Disk != nil || c.Op == simkit.OpGet)
 		}}
 	}
+	// (faulty configuration, one run in three) the caller's context is cancelled when a tape-chosen call of the update
+	// lands: the update may give up and say so, or carry on; if it reports success the directory is the target bundle
+	uctx := bg
+	if faulty && t.Bool(1, 3) {
+		w.Faults = nil
+		ctx, cancel := context.WithCancel(bg)
+		defer cancel()
+		uctx = ctx
+		at, n, armed := t.Pick(0, 1, 2, 3, 5, 8, 13, 21, 34), 0, true
+		w.OnEvent(func(e *simkit.Event) *simkit.Violation {
+			if armed && e.Client == cl.Name {
+				if n == at {
+					armed = false
+					cancel()
+					w.Stats.Faults["F-CANCEL"]++
+				}
+				n++
+			}
+			return nil
+		})
+	}
 	ut, v := doOp(prop, w, cl, "update", func() (interface{}, error) {
 		local := core.NewBundle(core.ConsumableStore(localStore(disk)), core.Logger(nopLog))
 		remote := core.NewBundle(core.Repo("r1"), core.ContextStores(d.Stores(cl)), core.BundleID(bb.ID), core.Logger(nopLog), core.ConcurrentFileDownloads(t.Pick(1, 2, 10)))
-		return nil, core.Update(bg, remote, local)
+		return nil, core.Update(uctx, remote, local)
 	})
 	w.Faults = nil
 	disk.Scheduled = false
